@@ -147,7 +147,7 @@ def make_config(seed, tier="quick"):
     cfg = HOSTS[host][1](seed, tier)
     cfg["host"] = host
     if host == "pair":
-        cfg["charset"] = r.choice(["ascii", "latin1", "bmp", "astral", "latin1", "bmp", "surrogate"])  # values containing SOH are outside the quantified domain (C01: "without SOH")
+        cfg["charset"] = r.choice(["ascii", "latin1", "bmp", "astral", "latin1", "bmp", "surrogate", "nfd"])  # values containing SOH are outside the quantified domain (C01: "without SOH")
         cfg["payload_law"] = r.choice(["small", "small", "medium", "big", "huge"])
         if cfg["payload_law"] == "huge":
             # frames above 64 KiB written while other tasks of the same connection send: back-pressure on,
